@@ -260,10 +260,13 @@ example : (match serveSign exCfg exMods { exCl with roles := ["dev"] } exReq "t0
 
 /-- **signCmd_record_names_what_was_used** (standalone command).  Same statement for
     `relic sign`: key section, module, digest and certificates in the record are those handed to
-    `mod.Sign`, which derive from `--key`, the (given or detected) type and `--digest`. -/
-theorem signCmd_record_names_what_was_used (cfg : Config) (m : Option SignerMod) (keyName digest now host : String)
+    `mod.Sign`, which derive from `--key`, the (given or detected) type and `--digest`; the record
+    names the FILE given with `--file` (the one opened, probed, transformed and patched) and no caller.
+    (Before fix 2438572 the command wrote no attribute and the last conjunct read
+    `client.filename = none`: the record of a standalone signing did not name the file.) -/
+theorem signCmd_record_names_what_was_used (cfg : Config) (m : Option SignerMod) (keyName digest argFile now host : String)
     (sign : Used → Option (List (String × String))) (u : Used) (a : Attrs)
-    (h : signCmd cfg m keyName digest now host sign = .ok (u, a))
+    (h : signCmd cfg m keyName digest argFile now host sign = .ok (u, a))
     (hs : ∀ extra, sign u = some extra → ∀ kv ∈ extra, kv.1 ∉ identityAttrs) :
     (cfg.getKey keyName = some (u.keyName, u.sec) ∧ (∃ md, m = some md ∧ u.modName = md.name) ∧
      some u.hash = hashByName (if digest = "" then "SHA-256" else digest)) ∧
@@ -274,8 +277,7 @@ theorem signCmd_record_names_what_was_used (cfg : Config) (m : Option SignerMod)
      aget a "sig.x509.fingerprint" = u.sec.x509.map (·.fingerprint) ∧
      aget a "sig.pgp.fingerprint" = u.sec.pgp.map (·.fingerprint) ∧
      aget a "sig.pgp.entity" = u.sec.pgp.map (·.entity)) ∧
-    -- … and that is all: the standalone record names neither a caller nor the FILE that was signed
-    (aget a "client.name" = none ∧ aget a "client.filename" = none) := by
+    (aget a "client.name" = none ∧ aget a "client.filename" = some argFile) := by
   unfold signCmd at h
   split at h
   · cases h
@@ -288,6 +290,7 @@ theorem signCmd_record_names_what_was_used (cfg : Config) (m : Option SignerMod)
       · split at h
         · cases h
         · rename_i u' a' hi
+          simp only at h
           split at h
           · cases h
           · rename_i extra hsg
@@ -300,28 +303,25 @@ theorem signCmd_record_names_what_was_used (cfg : Config) (m : Option SignerMod)
               exact hex kv hkv (heq ▸ hq)
             obtain ⟨r1, r2, r3, r4, r5, r6, r7, r8, r9, _, _, r12⟩ := recordOf_names u' now host
             subst ha
-            refine ⟨⟨hgk, ⟨md, rfl, hmn⟩, ?_⟩, ⟨?_, ?_, ?_, ?_, ?_, ?_, ?_, ?_⟩, ?_, ?_⟩
+            refine ⟨⟨hgk, ⟨md, rfl, hmn⟩, ?_⟩, ⟨?_, ?_, ?_, ?_, ?_, ?_, ?_, ?_⟩, ?_, ?hfile⟩
+            case hfile =>
+              rw [aget_asetAll _ _ _ (hne _ (by simp [identityAttrs])), aget_aset_eq]
             · rw [hhh]; exact hhash.symm
-            all_goals (rw [aget_asetAll _ _ _ (hne _ (by simp [identityAttrs]))]; assumption)
+            all_goals (rw [aget_asetAll _ _ _ (hne _ (by simp [identityAttrs])),
+                           aget_aset_ne _ _ _ _ (by decide)]; assumption)
 
-/-- the full property text asks the record of EVERY successful signing operation to name the file;
-    for the standalone command this statement is FALSE of the code as it is
-    (`signCmd_record_names_what_was_used`, last conjunct; `signCmd_fields_generated`: signCmd
-    writes no attribute; observed on every `C06 rec cmd` op: file=-). -/
-def signCmd_record_names_file_full : Prop :=
-  ∀ (cfg : Config) (m : Option SignerMod) (keyName digest now host : String)
-    (sign : Used → Option (List (String × String))) (u : Used) (a : Attrs),
-    signCmd cfg m keyName digest now host sign = .ok (u, a) → (aget a "client.filename").isSome = true
+/-- the property text asks the record of EVERY successful signing operation to name the file:
+    for the standalone command this is the last conjunct above (true since fix 2438572; the
+    generated obligation `signCmd_fields_generated` pins the assignment in the source) -/
+theorem signCmd_record_names_file (cfg : Config) (m : Option SignerMod) (keyName digest argFile now host : String)
+    (sign : Used → Option (List (String × String))) (u : Used) (a : Attrs)
+    (h : signCmd cfg m keyName digest argFile now host sign = .ok (u, a))
+    (hs : ∀ extra, sign u = some extra → ∀ kv ∈ extra, kv.1 ∉ identityAttrs) :
+    aget a "client.filename" = some argFile :=
+  (signCmd_record_names_what_was_used cfg m keyName digest argFile now host sign u a h hs).2.2.2
 
-/-- … refuted by a concrete run of the model -/
-theorem signCmd_record_names_file_false : ¬ signCmd_record_names_file_full := by
-  intro hall
-  have := hall exCfg (some { name := "msi", needX509 := true }) "prod" "" "t0" "h" (fun _ => some [])
-    { keyName := "k2", sec := { token := "t", keyFile := "b.pem", x509 := some ⟨"CN=two", "CN=ca", "f2"⟩, pgp := some ⟨"pf2", "two <t@x>"⟩, roles := ["rel"] },
-      modName := "msi", hash := .sha256 }
-    _ rfl
-  revert this
-  decide
+example : ((signCmd exCfg (some { name := "msi", needX509 := true }) "prod" "" "/work/setup.msi" "t0" "h" (fun _ => some [])).toOption.map
+    (fun r => (r.1.keyName, aget r.2 "client.filename"))) = some ("k2", some "/work/setup.msi") := by rfl
 
 /-- json.Marshal keeps the members (member level): statement not proved here for maps built by
     arbitrary `aset` sequences (needs the no-duplicate-key invariant); `aget_insertSorted` is the
